@@ -97,3 +97,12 @@ CHECKS["C06"] = dict(
           "file entry at a varying position, fake git when commit is on) and run through the real `update`; exit class, changed files and the VCS command log are validated by the trace "
           "spec (Trace_Update, event `fault`)."),
     note=_NOTE, ref="DESIGN.md section 6, C06")
+CHECKS["C10"] = dict(
+    technique="TLA+ spec of the update pipeline (BVPipeline, MC_C10) model-checked with TLC over the full configuration product + replay of lattice configurations against the real `update` with fake git/hg",
+    text=("Design level: the pipeline as a step machine over config (commit,tag,push) x tri-state flags x hooks {absent, ok, fail}^2 x hook source x dirty x --allow-dirty x tag message x "
+          "remote x --dry x fetch x one injected command failure (thorough: also hg, --ignore-vcs-tag and the uniqueness check): invariants Ordered, NoCommitNoTagPush, NoFetch, DryInert, "
+          "RejectFirst, OnlyIfEnabled, StopAtFailure on the log, and agreement of the machine with the declarative Expected(conf) at every terminal state. Conformance (spec -> code): "
+          "all 135 config x flag combinations, every failure point for git and hg, the --no-fetch/--ignore-vcs-tag/uniqueness cube, and seeded random configurations are concretised "
+          "(fake VCS answers, generated hook scripts, status output) and run; the trace spec projects the recorded command/hook log and compares it, the exit class, the file change "
+          "and the hook environment with Expected(conf)."),
+    note=_NOTE, ref="DESIGN.md section 6, C10")
